@@ -42,6 +42,9 @@ var c12Ops = []c12Op{
 	// member names that differ from their Go field names
 	{ID: "PFormIn", Method: "post", Path: "/formin", Bodies: []string{"application/x-www-form-urlencoded"},
 		Resps: []c12Resp{{Code: "204"}}},
+	// a JSON body that is not required: when it is sent, it is delivered
+	{ID: "POptJson", Method: "post", Path: "/optjson", Bodies: []string{"application/json"},
+		Resps: []c12Resp{{Code: "204"}}},
 	{ID: "PText", Method: "post", Path: "/text", Bodies: []string{"text/plain"},
 		Resps: []c12Resp{{Code: "200", Media: []string{"application/octet-stream"}}, {Code: "202"}}},
 	{ID: "PMulti", Method: "post", Path: "/multi", Bodies: []string{"application/json", "application/x-www-form-urlencoded", "text/plain"},
@@ -88,7 +91,7 @@ func c12Doc() J {
 					content[m] = J{"schema": J{"$ref": "#/components/schemas/Payload"}}
 				}
 			}
-			op["requestBody"] = J{"required": true, "content": content}
+			op["requestBody"] = J{"required": o.ID != "POptJson", "content": content}
 		}
 		if strings.Contains(o.Path, "{id}") {
 			op["parameters"] = []interface{}{J{"name": "id", "in": "path", "required": true, "schema": J{"type": "integer"}},
